@@ -84,7 +84,7 @@ static void run_case(vf::Ctx& ctx, const Fac& fac)
         const int len = (int) r.range(0, ctx.thorough ? 6 : 4);
         for (int s = 0; s < len; s++)
         {
-            const int what = (int) r.range(0, 5);
+            const int what = (int) r.range(0, 6);
             try
             {
                 if (what == 0) { es->init(); word += "I"; }
@@ -106,6 +106,17 @@ static void run_case(vf::Ctx& ctx, const Fac& fac)
                     try { es->compute(badr, 10, T(1e-8), fac.sort_rules()[0]); } catch (const std::invalid_argument&) { threw = true; }
                     word += threw ? "x" : "X";
                 }
+                else if (what == 6)
+                {
+                    // a compute() that throws late: valid selection, sorting rule the solver does not support (rejected only when the Ritz pairs are sorted,
+                    // i.e. after the whole iteration and, for the complex-shift solver, after the operator was moved to its probe shift)
+                    if (word.empty()) { es->init(); word += "I"; }
+                    const SortRule bads = Fac::is_gen ? r.pick(std::vector<SortRule>{SortRule::LargestAlge, SortRule::SmallestAlge, SortRule::BothEnds})
+                                                      : r.pick(std::vector<SortRule>{SortRule::LargestReal, SortRule::SmallestReal, SortRule::LargestImag, SortRule::SmallestImag});
+                    bool threw = false;
+                    try { es->compute(r.pick(fac.select_rules()), r.pick(maxits), r.pick(tols), bads); } catch (const std::invalid_argument&) { threw = true; }
+                    word += threw ? "s" : "S";
+                }
                 else
                 {
                     // read the accessors (must not matter)
@@ -114,6 +125,15 @@ static void run_case(vf::Ctx& ctx, const Fac& fac)
                 }
             }
             catch (const std::exception&) { word += "!"; }
+            // the operator still behaves as it did when it was constructed, after every step of the history (also one that threw)
+            Vec yh(d.n);
+            ops->probe(probe_x.data(), yh.data());
+            ctx.count("operator_probes");
+            if (std::memcmp(yh.data(), p1.data(), p1.size()) != 0)
+            {
+                ctx.violation(key("operator-changed-by-history"), info(word).kv("after_step", word.substr(word.size() - 1)).str());
+                break;
+            }
         }
         ob = R::observed(*es, use_v ? &v0 : nullptr, a, sb);
         // (c) a second solver sharing the operator object that has been through all of the above
